@@ -329,6 +329,21 @@ def body(ctx: Ctx):
                         bad.append({"executor": "percall", "default_cores": D, "call_cores": c, "got": got, "want": want})
             finally:
                 bounded_shutdown(exe)
+        # ---- a multi-core call that has to WAIT in the dependency resolver (one of its arguments is a future still running at
+        # submit): it keeps its per-call cores on the way through the wait list
+        for n in (2, 3):
+            exe = executorlib.Executor(backend="local", block_allocation=False, max_cores=4)
+            try:
+                prod = exe.submit(lambda: (__import__("time").sleep(0.8), 41)[1])
+                f = exe.submit(g["f_rank"], prod, resource_dict={"cores": n})
+                got = value_of(f, 60)
+                want = [[r, 41] for r in range(n)]
+                ctx.case({"executor": "percall", "cores": n, "argument": "future pending at submit"}, nontrivial=True)
+                ctx.count("executor.percall_cores_through_wait_list")
+                if got != want:
+                    bad.append({"executor": "percall behind the resolver", "call_cores": n, "argument": "a future still running at submit", "got": got, "want": want})
+            finally:
+                bounded_shutdown(exe)
         # ---- file mode: cache_parallel.py writes exactly one result file, output in rank order
         from executorlib.standalone.hdf import dump, get_output
 
